@@ -41,7 +41,7 @@ CHECKS = {
    tech="exhaustive fault-point enumeration (disconnect at every offset, every close reason x buffered suffix) on the real code"),
 
  "C09": dict(engine="S/bfs + D", cat="model_checking", ref="DESIGN.md §4 C09",
-   text="Server half: explicit-state BFS to a fixpoint over {EHLO, NOOP, MAIL, RSET, STARTTLS, hundreds of scripted AUTH exchanges} x 12 configurations (TLS state x AllowInsecureAuth x backend kind), every transition on the real server in lock-step against the reference model; a recording SASL mechanism logs each octet string it is handed. Client half: exhaustive scripted client/server mechanism pairs over the real client and server.",
+   text="Server half: explicit-state BFS to a fixpoint over {EHLO, NOOP, MAIL, RSET, STARTTLS, hundreds of scripted AUTH exchanges} x 12 configurations (TLS state x AllowInsecureAuth x backend kind), every transition on the real server in lock-step against the reference model; a recording SASL mechanism logs each octet string it is handed. Failed handshake: STARTTLS answered 220, then non-handshake octets - the connection must stay plaintext in every respect. Client half: exhaustive scripted client/server mechanism pairs over the real client and server.",
    note="reference model ref/protocol.go (authStep); 5xx code for insecure AUTH not fixed by the statement",
    tech="explicit-state BFS on the real handler + exhaustive enumeration of scripted SASL exchanges, conformance with a reference model"),
  "C10": dict(engine="S/bfs + D", cat="model_checking", ref="DESIGN.md §4 C10",
@@ -73,7 +73,7 @@ CHECKS = {
    note="NoEnhancedCode + text that parses as a code is ambiguous and only the reply code is judged",
    tech="exhaustive enumeration of the stated finite product on the real code"),
  "C18": dict(engine="D", cat="exploration", ref="DESIGN.md §4 C18",
-   text="All sequences of 1-2 (3) LMTP transactions x 1-3 recipients x per-recipient fate {refused at RCPT, ok, 4xx, 5xx} x {callback, no callback} x backend kind through the real LMTP client and server; a client waiting for replies that never come is a runtime-detected deadlock.",
+   text="All sequences of 1-2 (3) LMTP transactions x 1-3 recipients x per-recipient fate {refused at RCPT, ok, 4xx, 5xx} x {callback, no callback} x backend kind through the real LMTP client and server, plus a scripted LMTP server that accepts recipients with 250/251/252; a client waiting for replies that never come is a runtime-detected deadlock.",
    note="exact deadlock oracle from testing/synctest",
    tech="exhaustive history enumeration through real client <-> real server with an exact deadlock oracle"),
  "C19": dict(engine="S/input", cat="exploration", ref="DESIGN.md §4 C19",
@@ -108,7 +108,7 @@ m = {
    {"name": "R", "path": "/verif/checks/c20race.go", "serves_properties": ["C20"], "kind_free_text": "free-running replays of engine X's schedules in a -race build with the ordinary sync package; reports reduced to function-pair signatures"},
  ],
  "checks": [], "not_applicable": [],
- "notes": "All checks are built and run with go1.26.8 (GOTOOLCHAIN=local) because testing/synctest provides the exact 'all goroutines blocked' signal the explorers need. ./check <ID> <tier> rebuilds from /repo's working tree with -tags verif.",
+ "notes": "Every quick command also reports a panic of directly called code, a goroutine that never finishes, backend anomalies (reads after EOF, Reset/Logout overlapping a delivery) and an execution that spins for more than 180 s as violations. All checks are built and run with go1.26.8 (GOTOOLCHAIN=local) because testing/synctest provides the exact 'all goroutines blocked' signal the explorers need. ./check <ID> <tier> rebuilds from /repo's working tree with -tags verif.",
 }
 for p in props:
     i = p['id']
